@@ -323,7 +323,25 @@ func (env *CEnv) derefIfPtr(cv CV) CV {
 	return cv
 }
 
+func dottedName(x *CExpr) (string, bool) {
+	switch x.Kind {
+	case "ident":
+		return x.Name, true
+	case "sel":
+		if b, ok := dottedName(x.X); ok {
+			return b + "." + x.Name, true
+		}
+	}
+	return "", false
+}
+
 func (env *CEnv) selector(x *CExpr) CV {
+	// engine identifiers of types and functions: tid.<type>, fid.<function>
+	if dn, ok := dottedName(x); ok && (strings.HasPrefix(dn, "fid.") || strings.HasPrefix(dn, "tid.")) {
+		if _, shadow := env.vars[dn[:3]]; !shadow {
+			return CV{V: Sym(dn, SInt)}
+		}
+	}
 	base := env.eval(x.X)
 	if base.Pkg != nil {
 		obj := base.Pkg.Scope().Lookup(x.Name)
@@ -933,7 +951,7 @@ func (env *CEnv) seqOf(v CV) *Term {
 	switch t.Sort {
 	case SSlice:
 		var arr *Term
-		env.withState(env.st, func() { arr = env.e.backing(t, types.Typ[types.Byte]) })
+		env.withState(env.st, func() { arr = env.e.backingCanon(t, types.Typ[types.Byte]) })
 		return App("bseq.of", "BSeq", arr, SlOff(t), SlLen(t))
 	case SStr:
 		return App("bseq.of", "BSeq", StrArr(t), bv64zero, StrLen(t))
